@@ -21,6 +21,7 @@ import (
 	"github.com/markusressel/fan2go/zverif/kernel"
 	"github.com/markusressel/fan2go/zverif/stage"
 	"github.com/markusressel/fan2go/zverif/world"
+	bolt "go.etcd.io/bbolt"
 )
 
 // L2 child: one OS process = one incarnation of the real fan2go program
@@ -141,6 +142,15 @@ func TestDaemonChild(t *testing.T) {
 					if ev != nil {
 						ev.Val = n
 						ev.Out = w.SignalPanic
+					}
+				case "db.hold":
+					// another process (e.g. a fan2go CLI command) holds the database's file lock for a while
+					if db, err := bolt.Open(w.DBPath(), 0600, &bolt.Options{Timeout: 10 * time.Millisecond}); err == nil {
+						time.Sleep(time.Duration(e.Value) * time.Millisecond)
+						_ = db.Close()
+						if ev != nil {
+							ev.Out = "held"
+						}
 					}
 				case "3rd.mode":
 					w.SetThirdParty(e.Fan, "mode", e.Value)
